@@ -361,7 +361,7 @@ def run(ctx):
     plans = []
     if quick:
         plans.append(("A-mc", "BlockProcess_mc_quick.cfg", {}, None))
-        plans.append(("B-sim", "BlockProcess_sim.cfg", {"World": '"B"'}, (150, 60)))
+        plans.append(("B-sim", "BlockProcess_sim.cfg", {"World": '"B"'}, (80, 60)))
     else:
         plans.append(("A-mc", "BlockProcess_mc_thorough.cfg", {}, None))
         plans.append(("B-mc", "BlockProcess_mc_thorough.cfg", {"World": '"B"'}, None))
